@@ -584,7 +584,10 @@ class Parser:
         ast, macros = self._parse('void __dummy(\n%s\n);' % cdecl)[:2]
         if macros:
             raise CDefError("#define is not allowed in a type expression")
-        args = ast.ext[-1].type.args
+        typenode = ast.ext[-1].type
+        if not isinstance(typenode, pycparser.c_ast.FuncDecl):
+            raise CDefError("invalid type expression")
+        args = typenode.args
         if args is None:
             raise CDefError("empty type expression")
         exprnode = args.params[0]
@@ -914,11 +917,13 @@ class Parser:
                     else:
                         return int(s, 10)
                 except ValueError:
-                    if len(s) > 1:
+                    try:
                         if s.lower()[0:2] == '0x':
                             return int(s, 16)
                         elif s.lower()[0:2] == '0b':
                             return int(s, 2)
+                    except ValueError:
+                        pass
                 raise CDefError("invalid constant %r" % (s,))
             elif s[0] == "'" and s[-1] == "'" and (
                     len(s) == 3 or (len(s) == 4 and s[1] == "\\")):
@@ -974,7 +979,8 @@ class Parser:
                 return left ^ right
         #
         raise FFIError(":%d: unsupported expression: expected a "
-                       "simple numeric constant" % exprnode.coord.line)
+                       "simple numeric constant" %
+                       (exprnode.coord.line if exprnode.coord else 0,))
 
     def _c_div(self, a, b):
         if b == 0:
